@@ -500,6 +500,10 @@ def rules(ctx):
     # (a silent no-op would keep every rejected proposal) - same rule as C02.R3
     from .c02 import r3_revert_structure
     r3_revert_structure(ctx, rid="C03.R7", title="State.revert restores the snapshot (full and per-individual branch) and raises when there is none")
+    # ... and what a rejected individual gets back is its old value, selected - an arithmetic blend turns a non-finite proposed value into NaN in the
+    # cache, and the decisions taken from it afterwards are no longer `u < exp(-D)` (same rule as C02.R4)
+    from .c02 import r4_selection
+    r4_selection(ctx, rid="C03.R8")
     ctx.trust("torch.exp / torch.rand / torch.randn semantics; sympy expand")
 
 
